@@ -218,7 +218,7 @@ class Ctx:
     def const(self, x):
         """exact constant (e.g. pi) usable in both modes"""
         if self.symbolic:
-            return Sym(sp.sympify(x))
+            return Sym(S.to_expr(x) if isinstance(x, (int, float)) else sp.sympify(x))
         return float(sp.sympify(x))
 
     def isnan(self, x):
